@@ -9,7 +9,7 @@ from ..cfg import cfg_of
 from ..excflow import _truthy_guard, enclosing_handlers, handler_catches, primitive_sites, raise_arity, raised_class, route_in_scope
 from ..model import AnalysisError, NotConst, dotted, norm, walk_own
 from ..relang import Pattern, compare
-from .common import cmp_fact, find_calls, guards_of, key_of, leads_only_to_raise, mentions
+from .common import cmp_fact, find_calls, guards_of, key_of, leads_only_to_raise, mentions, resolve_locals
 
 EXPLANATION = (
     "Containment, guard and shape analysis of proxy_headers.py. (R1) Every explicit raise and every raising primitive "
@@ -75,8 +75,19 @@ def rule_r1(ctx):
                 # environ["HTTP_..."] reads: safe under a membership guard; inside a handler they are only reached
                 # after the try body raised on that very header's value (hence it is present)
                 if isinstance(e.slice, ast.Constant) and str(e.slice.value).startswith(("HTTP_", "REMOTE_", "wsgi.")):
-                    in_handler = any(isinstance(h, ast.ExceptHandler) and any(x is e for x in ast.walk(h)) for h in ast.walk(f.node))
-                    guarded = any(pol and isinstance(t, ast.Compare) and isinstance(t.ops[0], ast.In) and norm(t.left) == norm(e.slice) for (t, pol) in guards_of(g, node))
+                    def _member_guard(nd, key):
+                        return any(pol and isinstance(t, ast.Compare) and isinstance(t.ops[0], ast.In) and norm(t.left) == key for (t, pol) in guards_of(g, nd))
+                    in_handler = False
+                    for tr in ast.walk(f.node):
+                        if not isinstance(tr, ast.Try):
+                            continue
+                        for h in tr.handlers:
+                            if any(x is e for x in ast.walk(h)):
+                                # ... unless the body itself can fail on the key being absent: then the handler's read fails too
+                                body_reads = [m for m in g.nodes if m.ast is not None and m.kind in ("stmt", "test", "iter") and any(m.ast is y or (m.kind == "test" and getattr(m, "stmt", None) is y) for b in tr.body for y in ast.walk(b))
+                                              and any(isinstance(y, ast.Subscript) and isinstance(y.ctx, ast.Load) and norm(y) == norm(e) for y in ast.walk(m.ast.iter if m.kind == "iter" else m.ast))]
+                                in_handler = all(_member_guard(m, norm(e.slice)) for m in body_reads)
+                    guarded = _member_guard(node, norm(e.slice))
                     set_before = any(isinstance(m.ast, ast.Assign) and any(isinstance(t, ast.Subscript) and norm(t) == norm(e) for t in m.ast.targets) and g.dominates(m, node)
                                      for m in g.nodes if m.kind == "stmt")
                     if in_handler or guarded or set_before or str(e.slice.value) in ("REMOTE_ADDR", "wsgi.url_scheme"):
@@ -481,7 +492,160 @@ def rule_r7(ctx):
     c20.rule_r4(ctx, rid="C16.R7")
 
 
-RULES = [rule_r1, rule_r2, rule_r3, rule_r4, rule_r5, rule_r6, rule_r7]
+def _raw_uses(g, var, raw_def, cleans):
+    """Forward may-dataflow for one local: which Load uses of `var` can see a value that is still the text as received
+    (bound by a cfg node satisfying raw_def, possibly re-bound from itself by strip()/lower()), i.e. not yet re-bound
+    from a call satisfying `cleans`.  Returns [(cfg node, Name node)]."""
+    def binds(n):
+        a = n.ast
+        if n.kind == "iter":
+            return any(isinstance(x, ast.Name) and x.id == var for x in ast.walk(a.target))
+        if n.kind == "stmt" and isinstance(a, ast.Assign):
+            return any(isinstance(x, ast.Name) and x.id == var for t in a.targets for x in ast.walk(t))
+        return False
+
+    def transfer(n, st):
+        if not binds(n):
+            return st
+        a = n.ast
+        if raw_def(n):
+            return "raw"
+        if n.kind == "stmt" and isinstance(a, ast.Assign):
+            v = a.value
+            if isinstance(v, ast.Call) and cleans(v):
+                return "clean"
+            if isinstance(v, ast.Call) and isinstance(v.func, ast.Attribute) and v.func.attr in ("strip", "lstrip", "rstrip", "lower") and dotted(v.func.value) == var:
+                return st  # same text, trimmed / case-folded
+            return "clean" if not any(isinstance(x, ast.Name) and x.id == var for x in ast.walk(v)) else st
+        return "clean"
+    IN = {g.entry.id: frozenset({"clean"})}
+    work = [g.entry]
+    while work:
+        n = work.pop()
+        out = frozenset(transfer(n, x) for x in IN[n.id])
+        for (sx, _l) in n.succ:
+            old = IN.get(sx.id)
+            new = out if old is None else (old | out)
+            if new != old:
+                IN[sx.id] = new
+                work.append(sx)
+    uses = []
+    for n in g.nodes:
+        if n.id not in IN or "raw" not in IN[n.id] or n.ast is None or n.kind not in ("stmt", "test", "iter"):
+            continue
+        root = n.ast.iter if n.kind == "iter" else n.ast
+        if n.kind == "stmt" and isinstance(root, (ast.FunctionDef, ast.AsyncFunctionDef, ast.ClassDef)):
+            continue
+        for x in ast.walk(root):
+            if isinstance(x, ast.Name) and x.id == var and isinstance(x.ctx, ast.Load):
+                uses.append((n, x, root))
+    return uses
+
+
+def _is_member_split(e, txt):
+    """e is `<the X-Forwarded-For / -Host header text>.split(",")` itself (not something computed from it)"""
+    return isinstance(e, ast.Call) and isinstance(e.func, ast.Attribute) and e.func.attr == "split" and len(e.args) == 1 and isinstance(e.args[0], ast.Constant) and e.args[0].value == "," \
+        and ("HTTP_X_FORWARDED_FOR" in txt or "HTTP_X_FORWARDED_HOST" in txt)
+
+
+def rule_r8(ctx, rid="C16.R8"):
+    ctx.r.rule(rid, "every parameter value of a Forwarded element and every X-Forwarded-For/-Host list member is used only after undquote() validated its quoting: while a local still holds the text as received it appears only in comparisons, as the operand of strip()/lower(), or as the argument of undquote (whose failure becomes the 400)")
+    from ..callgraph import get_callgraph
+    p = ctx.p
+    cg = get_callgraph(p)
+    f = p.func("proxy_headers.parse_proxy_headers")
+    g = cfg_of(f)
+
+    def cleans(c):
+        return any(t.qual == "utilities.undquote" for t in cg.callees(c)) or dotted(c.func) == "undquote"
+    sources = []
+    for n in g.nodes:
+        a = n.ast
+        if n.kind == "stmt" and isinstance(a, ast.Assign) and isinstance(a.value, ast.Call) and isinstance(a.value.func, ast.Attribute) and a.value.func.attr == "partition" \
+                and isinstance(a.targets[0], ast.Tuple) and len(a.targets[0].elts) == 3 and isinstance(a.targets[0].elts[2], ast.Name):
+            sources.append((a.targets[0].elts[2].id, n, "the value of a forwarded-pair"))
+        if n.kind == "iter" and isinstance(a.target, ast.Name):
+            it = a.iter
+            src = resolve_locals(f, it) if isinstance(it, ast.Name) else it
+            txt = norm(src) if src is not None else ""
+            if _is_member_split(src, txt):
+                sources.append((a.target.id, n, "a member of %s" % ("X-Forwarded-For" if "FOR" in txt else "X-Forwarded-Host")))
+    def use_ok(x, par, var):
+        """x: an expression holding the text as received.  Fine when it is compared, handed to undquote, or trimmed /
+        case-folded and the result used in one of these ways (or stored back into the same local)."""
+        pn = par.get(id(x))
+        if isinstance(pn, ast.Compare):
+            return True
+        if isinstance(pn, ast.Call) and cleans(pn) and pn.args and pn.args[0] is x:
+            return True
+        if isinstance(pn, ast.Attribute) and pn.attr in ("strip", "lstrip", "rstrip", "lower") and isinstance(par.get(id(pn)), ast.Call) and par[id(pn)].func is pn:
+            return use_ok(par[id(pn)], par, var)
+        if isinstance(pn, ast.Assign) and pn.value is x and all(isinstance(t, ast.Name) and t.id == var for t in pn.targets):
+            return True
+        return False
+    msg = "%s (`%s`) is used as received in `%s`: its quoting was never validated, a badly quoted value is accepted instead of being answered with 400"
+    # comprehensions over the list members: the member is bound for the extent of the comprehension only
+    ncomp = 0
+    for n in g.nodes:
+        if n.ast is None or n.kind not in ("stmt", "test", "iter"):
+            continue
+        root = n.ast.iter if n.kind == "iter" else n.ast
+        if isinstance(root, (ast.FunctionDef, ast.AsyncFunctionDef, ast.ClassDef)):
+            continue
+        for comp in ast.walk(root):
+            if not isinstance(comp, (ast.ListComp, ast.SetComp, ast.GeneratorExp)):
+                continue
+            for gen in comp.generators:
+                if not isinstance(gen.target, ast.Name):
+                    continue
+                it = gen.iter
+                srcx = resolve_locals(f, it) if isinstance(it, ast.Name) else it
+                txt = norm(srcx) if srcx is not None else ""
+                if not _is_member_split(srcx, txt):
+                    continue
+                what = "a member of %s" % ("X-Forwarded-For" if "FOR" in txt else "X-Forwarded-Host")
+                ncomp += 1
+                par = {id(c): pn for pn in ast.walk(comp) for c in ast.iter_child_nodes(pn)}
+                bad = [x for x in ast.walk(comp) if isinstance(x, ast.Name) and x.id == gen.target.id and isinstance(x.ctx, ast.Load) and not use_ok(x, par, gen.target.id)]
+                if bad:
+                    ctx.r.violation(rid, key_of(f, None, "unvalidated-use::%s::%s" % (gen.target.id, norm(comp)[:40])), msg % (what, gen.target.id, norm(comp)[:70]), f.loc(comp))
+                else:
+                    ctx.r.ok(rid, "%s (`%s`) is used only through undquote()" % (what, gen.target.id), f.loc(comp))
+    ctx.r.floor(rid, len(sources) + ncomp, 3, "places where header text enters a local (pair value, X-Forwarded-For member, X-Forwarded-Host member)")
+    # every recognised parameter of a forwarded-pair is validated, used or not: from the branch that recognises a token
+    # the end of the iteration is reached only through undquote(value)
+    for var, src, what in sources:
+        if src.kind != "stmt":
+            continue
+        loops = [x for x in g.nodes if x.kind == "iter" and any(y is src.ast for y in ast.walk(x.ast))]
+        if not loops:
+            continue
+        lp = min(loops, key=lambda x: sum(1 for _ in ast.walk(x.ast)))
+        tokv = src.ast.targets[0].elts[0].id if isinstance(src.ast.targets[0].elts[0], ast.Name) else None
+        cl = [x for x, c in find_calls(g, lambda c: cleans(c) and c.args and dotted(c.args[0]) == var)]
+        for b in g.nodes:
+            if b.kind != "branch" or not b.polarity:
+                continue
+            cf = cmp_fact(b.ast, True)
+            if not (cf and cf[0] == "==" and tokv in (cf[1], cf[2]) and isinstance(b.ast, ast.Compare) and any(isinstance(o, ast.Constant) and isinstance(o.value, str) and o.value.isalpha() for o in [b.ast.left] + b.ast.comparators)):
+                continue
+            if g.path(b, lp, avoid=cl, follow_exc=False) is None:
+                ctx.r.ok(rid, "the value of a recognised `%s` parameter always goes through undquote()" % norm(b.ast), f.loc(b.ast))
+            else:
+                ctx.r.violation(rid, key_of(f, None, "recognised-unvalidated::" + norm(b.ast)[:30]), "a forwarded-pair recognised by `%s` can be taken without undquote(%s): its quoting is never validated, a badly quoted parameter is accepted instead of being answered with 400" % (norm(b.ast), var), f.loc(b.ast))
+    for var, src, what in sources:
+        bad = []
+        for (n, x, root) in _raw_uses(g, var, lambda m, src=src: m is src, cleans):
+            par = {id(c): pn for pn in ast.walk(root) for c in ast.iter_child_nodes(pn)}
+            if not use_ok(x, par, var):
+                bad.append((n, x, root))
+        if not bad:
+            ctx.r.ok(rid, "%s (`%s`) is used only through undquote()" % (what, var), f.loc(src.ast))
+        for (n, x, root) in bad[:1]:
+            ctx.r.violation(rid, key_of(f, None, "unvalidated-use::%s::%s" % (var, norm(root)[:40])), msg % (what, var, norm(root)[:70]), f.loc(root))
+
+
+RULES = [rule_r1, rule_r2, rule_r3, rule_r4, rule_r5, rule_r6, rule_r7, rule_r8]
 
 from ..selftest import M, T, V  # noqa: E402
 
